@@ -240,7 +240,7 @@ def pollLoop (sc : Script) : Nat → State → PollCtl → State
       let s := { s with oracle := rest }
       let s := completeWorks s r.done
       let s := { s with clock := r.clock }
-      let s := emit s (.poll c.timeout r)
+      let s := emit s (.poll s.loopCount c.timeout r)
       if r.deadlock then { s with halted := true } else
       let s := updateTime s
       if r.eintr || r.batch.isEmpty then
@@ -343,6 +343,7 @@ def iteration (sc : Script) (mode : Mode) (s : State) : State :=
   let s := runWatchers sc .idle s
   let s := runWatchers sc .prepare s
   let timeout := pollTimeout mode cs s
+  let s := { s with loopCount := s.loopCount + 1 }
   let s := ioPoll sc s timeout
   let s := pendingRounds sc 8 s
   let s := runWatchers sc .check s
